@@ -301,6 +301,8 @@ def build_modelrun(pid, run_module):
     vo = os.path.join(COQ, 'theories', *run_module.split('.')) + '.vo'
     drv = os.path.join(COQ, 'extract', 'driver.ml')
     stamp = os.path.join(d, 'stamp')
+    if not os.path.exists(vo):
+        return False, '%s was not built' % vo
     h = hashlib.sha256(open(vo, 'rb').read() + open(drv, 'rb').read()).hexdigest()
     if os.path.exists(exe) and os.path.exists(stamp) and open(stamp).read() == h:
         return True, 'up to date'
